@@ -117,7 +117,7 @@ Definition step_disc (c : jcfg) (s : jsim) : option jsim :=
   let stopped_v1 := is_v1 c && stopped (d s) in
   let '(ob, orest) := pop_oracle s in
   match pc (d s) with
-  | Sending b own k =>
+  | Sending b own _ k =>
       let room := (length (obuf s) <? ocap s)%nat in
       if stopped_v1 && (negb room || ob) then
         option_map (fun s1 => s1 <| oracle := if room then orest else oracle s |>) (fire c s (Abort t))
